@@ -107,6 +107,22 @@ func respScenarios(tier string) []*mc.Scenario {
 		}}},
 		Menu: menuStd(true, false),
 	})
+	// the same histories with the subscriber fan-out of a cached resource in
+	// reverse registration order: several Subscription objects of one
+	// connection can sit on one resource here (a disposed one that is still
+	// loading next to its successor), and the order of their announcements
+	// decides what the connection does first
+	for _, name := range []string{"resp/overlap-same-rid", "resp/partial-unsubscribe"} {
+		for _, sc := range out {
+			if sc.Name == name {
+				c := *sc
+				c.Name += "/rev"
+				c.RevSubs = true
+				out = append(out, &c)
+				break
+			}
+		}
+	}
 	return out
 }
 
